@@ -42,12 +42,20 @@ def s1_rawind(ctx, rule='C14.S1'):
     co = repo.lookup_method(cls, 'make_channel_objects')
     mg = repo.func(MG, 'Merger.write_channel_data')
     # merger recurrence
-    lp = mg.nodes(ast.For)[0]
-    ind, arrn = (unparse(x) for x in lp.target.elts)
+    from obligations.C12 import probe_loop
+    lps = mg.nodes(ast.For)
+    pl = probe_loop(lps[0]) if lps else None
+    if pl is None:
+        ctx.undecided(rule, mg, 'the probe loop of Merger.write_channel_data was not recognised')
+        return
+    lp = lps[0]
+    ind, arrn, _src = pl
     me = T('self')
     ARR, O = T('MK'), T('OK')
     offs = [unparse(a.targets[0]) for a in mg.body() if isinstance(a, ast.Assign) and const_value(a.value) == 0 and isinstance(a.targets[0], ast.Name)]
-    env = {mg.params[0]: me, arrn: ARR, ind: T('k')}
+    env = {mg.params[0]: me, arrn: ARR}
+    if ind is not None:
+        env[ind] = T('k')
     for o in offs:
         env[o] = T('acc', o)
     for n_ in [a for a in mg.body() if isinstance(a, ast.Assign) and isinstance(a.value, ast.List) and isinstance(a.targets[0], ast.Name)]:
